@@ -587,7 +587,7 @@ Print Assumptions C05_source_counters_are_the_tallies.
    writes the two keyboards down independently of the source (ANSI geometry, quarter key
    widths).  Every adjacency the model accepts on the layouts regenerated from the source
    holds between physical keys (all pairs of keys, by computation) ... *)
-From Pcfg Require Import KbdGeometry.
+From Pcfg Require Import KbdGeometry KbdGeometryProofs.
 Theorem C05_keyboard_adjacency_is_physical : pairing c_kbs phys_layouts = true.
 Proof. exact geometry_contains_code_adjacency. Qed.
 (* ... so a sound K segment walks over physically adjacent keys of one keyboard *)
